@@ -80,3 +80,46 @@ def register(reg):
     variant('mask+error', img, err, inimg_m + inimg_e, f'({m} or not {fin})', True)
     variant('mask', img, ('const', None), inimg_m, f'({m} or not {fin})', False)
     variant('error', ('const', None), err, inimg_e, f'(not {fin})', True)
+
+    # ---- _data_cutouts: cutout k is the data under aperture k's box minus *its own* local
+    # background (None exactly when aperture k does not overlap the data); always a float copy
+    sl = 'self._overlap_slices[k][0]'
+    reg.record('ApertureStats@cutouts', {
+        '_overlap_slices': ('seq', ('tuple', ('opt', 'slice2'), ('opt', 'slice2'))),
+        '_local_bkg': ('arr', 1, 'real'),
+        '_data': ('arr', 2, 'real', 'nonfinite', 'nonempty', 'anydtype')})
+    reg.add(Contract(
+        target=f'{S}._data_cutouts', props=['C16', 'C15'], kind='method', tag='cutouts',
+        params={'self': 'ApertureStats@cutouts'},
+        requires=[
+            'len(self._local_bkg) == len(self._overlap_slices)',
+            f'forall(lambda k: {sl} is None or ('
+            f'0 <= {sl}[0].start and {sl}[0].start < {sl}[0].stop and '
+            f'{sl}[0].stop <= self._data.shape[0] and 0 <= {sl}[1].start and '
+            f'{sl}[1].start < {sl}[1].stop and {sl}[1].stop <= self._data.shape[1]), '
+            '(0, len(self._overlap_slices)))'],
+        ensures=[
+            ('one-per-aperture', 'len(result) == len(self._overlap_slices)'),
+            ('none-iff-no-overlap',
+             f'forall(lambda k: iff(result[k] is None, {sl} is None), (0, len(result)))'),
+            ('shape', f'forall(lambda k: {sl} is None or result[k].shape == '
+                      f'({sl}[0].stop - {sl}[0].start, {sl}[1].stop - {sl}[1].start), '
+                      '(0, len(result)))'),
+            ('own-background-subtracted',
+             f'forall(lambda k: {sl} is None or forall(lambda j, i: '
+             f'result[k][j, i] == self._data[j + {sl}[0].start, i + {sl}[1].start] '
+             '- self._local_bkg[k], (0, result[k].shape[0]), (0, result[k].shape[1])), '
+             '(0, len(result)))'),
+            ('nonfinite-kept',
+             f'forall(lambda k: {sl} is None or forall(lambda j, i: '
+             f'iff(isfinite_at(result[k], j, i), isfinite_at(self._data, j + {sl}[0].start, '
+             f'i + {sl}[1].start)), (0, result[k].shape[0]), (0, result[k].shape[1])), '
+             '(0, len(result)))'),
+        ],
+        mutants=[('slices[0] is None', 'slices[1] is None'),
+                 ('- local_bkg)', '+ local_bkg)'),
+                 ('self._data[slices[0]]', 'self._data[slices[1]]'),
+                 ('- local_bkg)', '- self._local_bkg[0])')],
+        # (dropping `.astype(float, copy=True)` is an equivalent change: the subtraction already
+        # yields a fresh float array)
+    ))
